@@ -100,6 +100,14 @@ func (v *Voter) Verify(proposal *hotstuff.ProposeMsg) (err error) {
 		return fmt.Errorf("block view %d too old, last voted view was %d", blockView, v.lastVotedView)
 	}
 	// vote rule must be valid
+	// the block must directly extend the block its certificate certifies
+	qc := proposal.Block.QuorumCert()
+	if proposal.Block.Parent() != qc.BlockHash() {
+		return fmt.Errorf("block's parent is not the block certified by its quorum certificate")
+	}
+	if blockView <= qc.View() {
+		return fmt.Errorf("block view %d is not above the view %d of its quorum certificate", blockView, qc.View())
+	}
 	if !v.ruler.VoteRule(blockView, *proposal) {
 		return fmt.Errorf("vote rule not satisfied")
 	}
